@@ -59,7 +59,9 @@ for sid in sorted(os.listdir('/verif/seeded')):
     d = f'/verif/seeded/{sid}'
     if not os.path.isdir(d): continue
     base = sid.split('-')[0]
-    m = dict(M.get(sid, {})); m.update(extra.get(sid, {}))
+    m = dict(M.get(sid, {}))
+    if os.path.exists(f'{d}/about.json'): m.update(json.load(open(f'{d}/about.json')))
+    m.update(extra.get(sid, {}))
     demo = [f for f in os.listdir(d) if f.endswith('_seed_demo_test.go')]
     latest = {}
     for r in res.get(sid, []): latest[r['check']] = r
